@@ -196,6 +196,7 @@ type c04Mode struct {
 	handler   int  // -1 never, 0 from the start, j>0: installed before the j-th symbol (1-based)
 	burst     bool // all packets injected at once
 	short     bool // the transport hands the client one byte per Read
+	behind    bool // the burst arrives right behind the CONNACK, before Connect has returned
 	replaceAt int
 }
 
@@ -208,8 +209,8 @@ func runC04(c *Ctx) {
 	}
 	c.Bound("alphabet", fmt.Sprint(alpha))
 	c.Bound("max_sequence_length", maxL)
-	c.Bound("modes", "handler from start | no handler | handler installed before symbol 2 | burst (all packets in one segment, handler from start) | the same with one byte per Read; plus all sequences of length<=2 with preemption bound 1 and a handler that yields")
-	modes := []c04Mode{{name: "h", handler: 0}, {name: "noh", handler: -1}, {name: "mid", handler: 2}, {name: "burst", handler: 0, burst: true}, {name: "burst-short-reads", handler: 0, burst: true, short: true}}
+	c.Bound("modes", "handler from start | no handler | handler installed before symbol 2 | burst (all packets in one segment, handler from start) | the same with one byte per Read | the same with the burst arriving right behind the CONNACK (session messages of a reconnect); plus all sequences of length<=2 with preemption bound 1 and a handler that yields")
+	modes := []c04Mode{{name: "h", handler: 0}, {name: "noh", handler: -1}, {name: "mid", handler: 2}, {name: "burst", handler: 0, burst: true}, {name: "burst-short-reads", handler: 0, burst: true, short: true}, {name: "burst-behind-connack", handler: 0, burst: true, behind: true}}
 	var lastTL []string
 	var lastSeq string
 	for _, m := range modes {
@@ -242,11 +243,18 @@ func runC04(c *Ctx) {
 						tl = nil
 						net = env.NewNet()
 						s := env.NewScript(net)
-						s.AutoConnAck = true
+						s.AutoConnAck = !m.behind
 						if m.short {
 							s.Conn.ReadMax = 1
 						}
+						var behindBurst []byte
 						s.OnPacket = func(_ *env.Script, p *env.Packet) {
+							if p.Type == env.CONNECT && m.behind {
+								// CONNACK and the whole burst become readable together, before Connect returns
+								s.Conn.Send(env.EncConnAck(true, 0), "")
+								net.Trace = append(net.Trace, env.WireEvent{Conn: s.Conn.ID, Dir: '<', Raw: behindBurst, Note: "burst right behind CONNACK"})
+								s.Conn.Inject(behindBurst)
+							}
 							if p.Type != env.CONNECT {
 								tl = append(tl, "W:"+p.String())
 								vrt.Event(unsafe.Pointer(&tl), vrt.HashString(p.String()))
@@ -255,7 +263,7 @@ func runC04(c *Ctx) {
 						cli := &mqtt.BaseClient{Transport: s.Conn}
 						var hSelf mqtt.Handler
 						h := mqtt.HandlerFunc(func(msg *mqtt.Message) {
-							tag := strings.TrimPrefix(msg.Topic, "t/")
+							tag := strings.TrimPrefix(strings.TrimPrefix(msg.Topic, "t/"), "é€/")
 							if len(msg.Payload) > 0 && string(msg.Payload) != tag {
 								tag += "[payload " + string(msg.Payload) + "]"
 							}
@@ -272,8 +280,14 @@ func runC04(c *Ctx) {
 						if m.handler == 0 {
 							cli.Handle(h)
 						}
-						if _, err := cli.Connect(vctx.Background(), "c04"); err != nil {
-							vrt.Failf("connect", "connect failed: %v", err)
+						connect := func() bool {
+							if _, err := cli.Connect(vctx.Background(), "c04"); err != nil {
+								vrt.Failf("connect", "connect failed: %v", err)
+								return false
+							}
+							return true
+						}
+						if !m.behind && !connect() {
 							return
 						}
 						ref := &c04Ref{stored: map[uint16]string{}, gen: map[uint16]int{}}
@@ -310,7 +324,11 @@ func runC04(c *Ctx) {
 								if sym.nopl {
 									pl = nil
 								}
-								pkt = env.EncPublish("t/"+tag, pl, sym.qos, sym.id, sym.dup, false)
+								prefix := "t/"
+								if sym.id == 2 {
+									prefix = "é€/" // a multi-byte UTF-8 topic
+								}
+								pkt = env.EncPublish(prefix+tag, pl, sym.qos, sym.id, sym.dup, false)
 							}
 							if m.burst {
 								burst = append(burst, pkt...)
@@ -319,7 +337,13 @@ func runC04(c *Ctx) {
 							s.Send(pkt)
 							vrt.Settle()
 						}
-						if m.burst {
+						if m.behind {
+							behindBurst = burst
+							if !connect() {
+								return
+							}
+							vrt.Settle()
+						} else if m.burst {
 							s.SendRaw(burst, "burst of "+strings.Join(seq, " "))
 							vrt.Settle()
 							// in a burst the steps' reactions follow each other in order
